@@ -112,9 +112,15 @@ package nsqd
 //@   invariant[map] self.topicMap != nil
 //@   invariant[values] forall k string :: {self.topicMap[k]} has(self.topicMap, k) ==> self.topicMap[k] != nil && self.topicMap[k].nsqd != nil && self.topicMap[k].idFactory != nil && self.topicMap[k].backend != nil
 
+//   (round 3, area A) every topic is registered under its own name (GetTopic is the only writer; Topic.name is immutable)
+//@   invariant[keyed-by-name] forall k string :: {self.topicMap[k]} has(self.topicMap, k) ==> self.topicMap[k].name == k
+
 //@ lock Topic.RWMutex guards channelMap, mapsof(map[string]*Channel)
 //@   invariant[map] self.channelMap != nil
 //@   invariant[values] forall k string :: {self.channelMap[k]} has(self.channelMap, k) ==> lChanUsable(self.channelMap[k])
+//   (round 3, area A) every channel is registered under its own name (getOrCreateChannel is the only writer; Channel.name is
+//   immutable) - Topic.exit deletes map entries by `channel.name`
+//@   invariant[keyed-by-name] forall k string :: {self.channelMap[k]} has(self.channelMap, k) ==> self.channelMap[k].name == k
 
 // Constructors (assumed, bodies not verified: they build disk queues, start goroutines and notify
 // the lookup loop): a fresh object with the given identity; no existing modelled state changes.
@@ -139,6 +145,8 @@ package nsqd
 //@   nochan
 //@   requires t != nil && t.nsqd != nil && t.channelMap != nil
 //@   requires[values] forall k string :: {t.channelMap[k]} has(t.channelMap, k) ==> lChanUsable(t.channelMap[k])
+//@   requires[keyed-by-name] forall k string :: {t.channelMap[k]} has(t.channelMap, k) ==> t.channelMap[k].name == k
+//@   ensures[keyed-by-name] forall k string :: {t.channelMap[k]} has(t.channelMap, k) ==> t.channelMap[k].name == k
 //@   ensures[present] result0 != nil && has(t.channelMap, channelName) && t.channelMap[channelName] == result0
 //@   ensures[is-new] result1 == !old(has(t.channelMap, channelName))
 //@   ensures[existing-kept] old(has(t.channelMap, channelName)) ==> result0 == old(t.channelMap[channelName])
